@@ -4,6 +4,7 @@
 //!       writes DIR/<stream>.ops (requests), DIR/<stream>.impl (implementation responses) and
 //!       DIR/<stream>.meta.json (distribution, oracle failures)
 //!   zvh run <stream>            requests on stdin → implementation responses on stdout (replay)
+//!   zvh fs-child …              internal: one extraction inside a chroot jail (spawned by the `fs` stream)
 mod mkzip;
 mod pkware;
 mod prng;
@@ -18,6 +19,10 @@ fn main() {
         std::panic::set_hook(Box::new(|_| {}));
     }
     let args: Vec<String> = std::env::args().collect();
+    if args.len() >= 2 && args[1] == "fs-child" {
+        // jailed extraction child of the `fs` stream (see streams/fs.rs)
+        std::process::exit(streams::fs::child_main(&args[2..]));
+    }
     if args.len() < 3 {
         eprintln!("usage: zvh gen|run <stream> [--seed N] [--tier T] [--out DIR]");
         std::process::exit(2);
